@@ -213,7 +213,7 @@ pub fn generate(rng: &mut Rng, tier: Tier) -> Plan {
         };
         nodes.push(NodeSpec {
             ts: d * DAY + if intraday { rng.i64_in(0, DAY - 1) } else { 0 },
-            num: gen_num(rng, kind, v, if many_vars { 4 } else { 2 }, prefix),
+            num: gen_num(rng, kind, v, if many_vars { if n <= 6 { 24 } else { 4 } } else { 2 }, prefix),
             ns: if subsecond && rng.chance(0.5) {
                 rng.below(1_000_000_000) as u32
             } else {
@@ -915,7 +915,7 @@ fn probe(
             for k in i.saturating_sub(3)..(i + 5).min(nn) {
                 idx.insert(k);
             }
-            for k in [0, 1, 2, nn - 3, nn - 2, nn - 1] {
+            for k in [0, 1, 2, nn.saturating_sub(3), nn.saturating_sub(2), nn - 1] {
                 idx.insert(k.min(nn - 1));
             }
             for j in 0..8 {
